@@ -9,20 +9,25 @@ from .common import viol, merge_cases, family, ImplRun
 
 PROPERTY = "C05"
 RULE = ("E1 x E3: one storage with <= K deviations of its menu (efficiency, costs, inflow, levels, two nodes, blocks, "
-        "no-simultaneous / max-duration MIP options, window, size 0, own price) inside a one- or two-node portfolio, "
+        "no-simultaneous / max-duration MIP options, window, size 0, own price, own coarser grid) inside a one- or two-node portfolio, "
         "storage first or last in the asset list (free), times a closed set of price words over {1,6}^T (free); "
         "distinct = canonical scenario; non-trivial = optimal and the storage charges or discharges")
 ASSUMPTIONS = ["charge / discharge per step are read from Results.x through the storage's dispatch rows (negative / positive part)",
                "R3 forward simulation of the physical level; tolerance 1e-6*(1+size)",
                "blocks = consecutive spans of block_size from the window start; level restarts at start_level in each block",
                "max_store_duration: a run of steps with non-zero end-of-step level lasts at most that long (sum of step lengths)",
-               "reported fill level is compared inside the storage window; in block scenarios only when start level == end level"]
+               "reported fill level is compared inside the storage window; in block scenarios only when start level == end level",
+               "a storage with its own coarser grid is active in its complete coarse steps; charge / discharge per portfolio step = share of the coarse variable"]
 EXPLANATION = "bounded exhaustive scenario enumeration; physical invariants and reported series checked on every solution"
 MIN_NONTRIVIAL_FRACTION = 0.4
 MAX_S = {"quick": 900, "thorough": 7200}
 
 STO_FEATS = dict(sto_eff=1, sto_costs=1, sto_inflow=1, sto_levels=1, sto_two_nodes=1, sto_blocks=["12h", "d"],
                  sto_mip=[6.0, 12.0, 48.0], sto_price=1, sto_size0=1, window=1, wacc=1)
+
+
+# the storage on its own, coarser grid (rates constant inside its steps; an incomplete last step is not part of its life time)
+STO_FREQ = {"4x6h": dict(freq=["12h"]), "5xh": dict(freq=["2h"]), "8x6h": dict(freq=["12h", "d"])}
 
 
 def price_words(T, tier):
@@ -51,14 +56,16 @@ def make_gen(tier):
         assets = []
         if base == "one":
             assets.append(dict(type="SimpleContract", name="mkt", nodes=["n1"], price="p", min_cap=S.r(-5.0, g), max_cap=S.r(5.0, g)))
-            sto = S.gen_storage(ch, g, "sto", ["n1"], STO_FEATS)
+            sto = S.gen_storage(ch, g, "sto", ["n1"], dict(STO_FEATS, **STO_FREQ.get(gname, {})))
         else:
             assets.append(dict(type="SimpleContract", name="mkt", nodes=["n1"], price="p", min_cap=S.r(-5.0, g), max_cap=S.r(5.0, g)))
             assets.append(dict(type="SimpleContract", name="mk2", nodes=["n2"], price="q", min_cap=S.r(-4.0, g), max_cap=S.r(4.0, g)))
             assets.append(dict(type="Transport", name="tr", nodes=["n1", "n2"], min_cap=0.0, max_cap=S.r(3.0, g)))
-            sto = S.gen_storage(ch, g, "sto", ["n1", "n2"], STO_FEATS)
-        if sto.get("max_store_duration") is not None and (sto.get("start_level") or sto.get("inflow")):
-            return None  # the duration option is only defined for start level 0 and no inflow
+            sto = S.gen_storage(ch, g, "sto", ["n1", "n2"], dict(STO_FEATS, **STO_FREQ.get(gname, {})))
+        if sto.get("freq") and (sto.get("max_store_duration") is not None or sto.get("block_size") or sto.get("cost_store") or sto.get("wacc")):
+            # a storage on its own coarser grid: holding duration, blocks and holding costs are counted on ITS steps - not a
+            # statement about the steps of the portfolio grid; no claim for these combinations
+            return None
         if sto.get("block_size") and sto.get("start"):
             from ref.grid import parse_instant
             ws = parse_instant(sto["start"], g.tz)
@@ -96,13 +103,17 @@ def run_case(case):
     a = [x for x in scn["assets"] if x["name"] == "sto"][0]
     g = Grid.from_json(scn["grid"])
     W = g.window(a.get("start"), a.get("end"), scn.get("date_tz"))
+    if a.get("freq"):
+        W = sorted(t for G in g.coarse(a.get("start"), a.get("end"), a["freq"], scn.get("date_tz")) for t in G)
     m = run.op.mapping
     x = np.asarray(run.res.x, float)
     sel = m[(m["asset"] == "sto") & (m["type"] == "d")]
-    sel = sel[~sel.index.duplicated(keep="first")]
+    # one row per (variable, time step); a variable of a coarser asset grid contributes its share to every step it covers
+    sel = sel[~(sel.index.astype(str) + "@" + sel["time_step"].astype(str)).duplicated(keep="first")]
+    fac = sel["disp_factor"].values if "disp_factor" in sel.columns else np.ones(len(sel))
     charge, discharge = {}, {}
-    for idx, t in zip(sel.index.values, sel["time_step"].values):
-        v = float(x[int(idx)])
+    for idx, t, f in zip(sel.index.values, sel["time_step"].values, fac):
+        v = float(x[int(idx)]) * (1.0 if f is None or np.isnan(f) else float(f))
         charge[int(t)] = charge.get(int(t), 0.0) + max(0.0, -v)
         discharge[int(t)] = discharge.get(int(t), 0.0) + max(0.0, v)
     V = res["violations"]
